@@ -14,7 +14,7 @@ RULE = ('one case = one scripted peer audited under 7 option sets (colour, -n, -
         '(refused, silent, closed after banner, garbage, truncated KEXINIT, wrong first packet, bad block size), and policy audits (-P) of passing and failing peers.  Oracle: status == 3/2/0 by the '
         'worst finding level visible in the report (algorithm notes by tag, general/security lines by colour); broken handshakes: status not in {0,2,3} and no algorithm lines/lists; policy: status 0 <=> passed, 3 <=> failed.  '
         'A case is non-trivial when at least one option set produced a report/verdict that was compared with the status; distinct = distinct peer specifications')
-REQUIRED = {'single_failure_by_entry_shape': 6, 'banners_with_two_findings': 2, 'gss_only_failure': 4, 'empty_entry_before_failure': 4, 'broken_after_rated_banner': 9, 'builtin_policy_runs': 10, 'outdated_builtin_policy_runs': 4, 'status_checks': 200, 'expect3': 10, 'expect2': 5, 'expect0': 3, 'broken_handshakes': 10, 'policy_runs': 10}
+REQUIRED = {'empty_entry_after_findings': 5, 'single_failure_by_entry_shape': 6, 'banners_with_two_findings': 2, 'gss_only_failure': 4, 'empty_entry_before_failure': 4, 'broken_after_rated_banner': 9, 'builtin_policy_runs': 10, 'outdated_builtin_policy_runs': 4, 'status_checks': 200, 'expect3': 10, 'expect2': 5, 'expect0': 3, 'broken_handshakes': 10, 'policy_runs': 10}
 ASSUMPTIONS = ['findings are algorithm notes plus failure/warning coloured lines of the general and security sections; (nfo), (rec) and (fin) lines are presentation, not findings',
                'levels of untagged (gen)/(sec) lines are only observable in colour renderings; the expected status of all option sets of a peer is derived from its colour rendering']
 MANIFEST = {
@@ -50,6 +50,9 @@ def cases(tier, seed):
         cs.append({'kind': 'mix', 'seed': rng.randrange(1 << 30), 'mix': {c_: [['clean'], ['warn', 'clean'], ['clean'], ['warn']][i % 4] for c_ in ('kex', 'key', 'enc', 'mac')}, 'unknown': False, 'probes': i % 2 == 0, 'dup': True})
     for i, cat in enumerate(('enc', 'mac', 'kex', 'key') * (1 if tier == 'quick' else 6)):
         cs.append({'kind': 'mix', 'seed': rng.randrange(1 << 30), 'mix': {c_: ['clean'] if i % 2 else ['warn', 'clean'] for c_ in ('kex', 'key', 'enc', 'mac')}, 'unknown': False, 'probes': False, 'empty_before_fail': cat})
+    # an empty entry AFTER the findings: a trailing comma ("a,b,"), or a whole list that is empty (AEAD-only peers send no MACs) in a category rendered after the one holding the failure
+    for i, (cat, how) in enumerate([('enc', 'trailing'), ('mac', 'trailing'), ('kex', 'trailing'), ('mac', 'empty-list'), ('enc', 'empty-list'), ('key', 'trailing')] * (1 if tier == 'quick' else 4)):
+        cs.append({'kind': 'mix', 'seed': rng.randrange(1 << 30), 'mix': {c_: ['clean'] if c_ != ('enc' if cat == 'mac' else 'kex') else ['fail', 'clean'] for c_ in ('kex', 'key', 'enc', 'mac')}, 'unknown': False, 'probes': False, 'empty_after': [cat, how]})
     # the only failure-rated name of the peer is one whose table entry has a given shape (number of slots, with / without a version history): whatever the shape, every rendering shows the failure the status reports
     for cat, shape in fail_shapes():
         cs.append({'kind': 'mix', 'seed': rng.randrange(1 << 30), 'mix': {c_: ['clean'] for c_ in ('kex', 'key', 'enc', 'mac')}, 'unknown': False, 'probes': False, 'fail_shape': [cat, list(shape)]})
@@ -208,6 +211,9 @@ def run_mix(c):
         # the same names listed twice
         for cat in lists:
             lists[cat] = lists[cat] + lists[cat][:2]
+    if c.get('empty_after'):
+        cat, how = c['empty_after']
+        lists[cat] = [''] if how == 'empty-list' else lists[cat] + ['']
     if c.get('empty_before_fail'):
         # an empty entry inside a list ("a,,b"), followed by a failure-rated name: what comes after the empty entry still counts
         cat = c['empty_before_fail']
@@ -232,6 +238,8 @@ def run_mix(c):
         counters['empty_entry_before_failure'] = 1
     if c.get('fail_shape'):
         counters['single_failure_by_entry_shape'] = 1
+    if c.get('empty_after'):
+        counters['empty_entry_after_findings'] = 1
     if c.get('gss_fail'):
         counters['gss_only_failure'] = 1
     check_optsets(script, viol, counters)
